@@ -1,7 +1,7 @@
 use crate::linalg::Vector;
 use crate::prelude::{
-    diag, invert_matrix, is_design, is_matrix, matmul, mean, solve, sum, svmul, vadd, vdiv, vmul,
-    vsqrt, vsub,
+    diag, dot, invert_matrix, is_design, is_matrix, matmul, mean, solve, sum, svmul, vadd, vdiv,
+    vmul, vsqrt, vsub,
 };
 
 use super::ExponentialFamily;
@@ -212,18 +212,24 @@ impl GLM {
             // println!("ddbeta {:?}", ddbeta);
 
             // println!("solve {:?}", solve(&ddbeta, &dbeta));
-            coef = vsub(&coef, &solve(&ddbeta, &dbeta));
+            let step = solve(&ddbeta, &dbeta);
+            // Newton decrement: the decrease of the deviance that the quadratic model predicts for this step
+            let decrement = dot(&dbeta, &step);
+            coef = vsub(&coef, &step);
 
             // println!("coef {:?}", coef);
 
             let penalized_deviance_previous = penalized_deviance;
 
             penalized_deviance = self.family.penalized_deviance(y, &mu, self.alpha, &coef);
+            // two successive deviances can agree by accident while the iteration is still oscillating: the
+            // step that was just taken must also have been predicted to be small on the same scale
             is_converged = self.has_converged(
                 penalized_deviance,
                 penalized_deviance_previous,
                 self.tolerance,
-            );
+            ) && decrement.abs()
+                <= 10. * self.tolerance * self.family.weighted_deviance(y, &mu, &weights).abs();
             n_iter += 1;
 
             if n_iter >= max_iter || is_converged {
